@@ -32,12 +32,15 @@ for sd in seeds:
         row = {}
         for p in props:
             if not os.path.exists("harness/%s.cpp" % p): row[p] = "no-harness"; continue
+            # cross-check properties are only consulted while the change is still uncaught
+            if "--first-catch" in sys.argv and any(isinstance(v, dict) and v["exit"] == 1 and v["violations"] for v in row.values()): break
             t = time.time()
             env = dict(os.environ, MC_BUILD="build-seed", MC_REPO=TARGET)
             r = subprocess.run(["./check", p, "--tier", tier], capture_output=True, text=True, env=env)
             viol = [l for l in r.stdout.splitlines() if l.startswith("VIOLATION")]
             row[p] = {"exit": r.returncode, "violations": len(viol), "first": (viol[0] if viol else ""), "wall_s": round(time.time() - t, 1)}
         results[sd] = {"tier": tier, "checks": row, "caught": any(isinstance(v, dict) and v["exit"] == 1 and v["violations"] for v in row.values())}
+        json.dump(results, open(resfile, "w"), indent=1, sort_keys=True)
         print("%-14s %s  %s" % (sd, "CAUGHT" if results[sd]["caught"] else "MISSED", json.dumps({k: (v if isinstance(v, str) else "exit=%d viol=%d %.0fs" % (v["exit"], v["violations"], v["wall_s"])) for k, v in row.items()})))
     finally:
         subprocess.run(["git", "-C", TARGET, "checkout", "--", "."], check=True)
